@@ -117,6 +117,12 @@ def build(r, tmpl, wrap_ok):
         src = fill + body
         lo_c += len(fill)
         hi_c += len(fill)
+    if r.chance(30) and name != "use-missing" and src.endswith("\n") and hi_c <= len(src.rstrip("\n")):
+        # no newline at the end of the file: the marked token may be the very last thing in it
+        src = src.rstrip("\n")
+        feats.append("no-trailing-newline")
+        if hi_c == len(src):
+            feats.append("site-ends-the-file")
     lo_b = len(src[:lo_c].encode("utf-8"))
     hi_b = len(src[:hi_c].encode("utf-8"))
     if r.chance(25) and name != "use-missing":
